@@ -720,4 +720,32 @@ theorem reads_refine (s : State) (h : LogInv s) (hm : s.opt.mode = 0) (hL : ∀ 
       rw [← pairs_visL, ← rangeScan_rebuilt hr b st en now, pairs_visL, hlive]
       exact rangeScan_refines (normState s) hmode b m hb' st en now hmok hn
 
+/-- every transaction of the history writes API records: flag Set or Delete, expiry time within 64 bits -/
+def OpsRecOk (ops : List Op) : Prop := ∀ t, Op.commit t ∈ ops → ∀ r ∈ t, RecOk r
+
+theorem logOf_recOk (ops : List Op) (h : OpsRecOk ops) : ∀ r ∈ logOf ops, RecOk r := by
+  induction ops with
+  | nil => intro r hr; cases hr
+  | cons op rest ih =>
+    have hrest : OpsRecOk rest := fun t ht => h t (List.mem_cons_of_mem _ ht)
+    cases op with
+    | commit t =>
+      intro r hr
+      simp only [logOf, List.mem_append] at hr
+      rcases hr with hr | hr
+      · -- a marked record is a record of the transaction with the status byte set
+        have ht := h t (by simp)
+        clear ih hrest h
+        induction t with
+        | nil => cases hr
+        | cons q qs ihq =>
+          simp only [marked, List.mem_cons] at hr
+          rcases hr with rfl | hr
+          · have := ht q (by simp)
+            unfold markLast; split <;> exact this
+          · exact ihq hr (fun x hx => ht x (by simp [hx]))
+      · exact ih hrest r hr
+    | reopen o => intro r hr; exact ih hrest r (by simpa [logOf] using hr)
+
+
 end NutsProofs.KVRefine
